@@ -221,7 +221,9 @@ var (
 	KeyIDPool = []string{"key1", "key2", "key-3", "k_4", "K5", "signing", "k", strings.Repeat("Kk-_0", 10)} // incl. lengths 1 and 50
 	SvcIDPool = []string{"svc1", "svc2", "hub-3", "s_4", "s", strings.Repeat("S9_-s", 10)}                  // incl. lengths 1 and 50
 	// incl. pairs that differ as strings but normalise to the same URI (scheme case, percent-encoding): set semantics are by string
-	URIPool = []string{"https://alice.example.com", "did:example:alice", "did:example:bob", "did:web:example.com", "urn:uuid:6d1d6e4c", "urn:uuid:7e2e7f5d", "mailto:alice@example.com", "https://a.example/path?q=1", "http://blog.example.org/",
+	URIPool = []string{"https://alice.example.com", "did:example:alice", "did:example:bob", "did:web:example.com", "urn:uuid:6d1d6e4c", "urn:uuid:7e2e7f5d", "mailto:alice@example.com",
+		// longer than any id may be: URIs have no length limit
+		"https://profiles.example.com/users/alice/public/identities/2024/primary?view=full&lang=en", "did:example:" + strings.Repeat("z", 70), "https://a.example/path?q=1", "http://blog.example.org/",
 		"HTTPS://alice.example.com", "https://blog.example/caf%C3%A9", "https://blog.example/café"}
 )
 
